@@ -212,9 +212,20 @@ pub fn res_string<T>(r: &Result<T, mla::errors::Error>) -> String {
     }
 }
 
+/// the writer of a case: `ArchiveWriter::new(dest, keys)` (the convenience constructor: default layers, default
+/// level) when the case asks for exactly that and a key byte says so, `from_config` otherwise
+pub fn open_writer<'a, W: 'a + Write>(dest: W, cfg: &Cfg) -> Result<ArchiveWriter<'a, W>, mla::errors::Error> {
+    if cfg.layers == (L_ENC | L_COMP) && cfg.level == 5 && !cfg.recipients.is_empty() && cfg.recipients[0][5] % 2 == 0 {
+        let pubs: Vec<PublicKey> = cfg.recipients.iter().map(|k| PublicKey::from(&StaticSecret::from(*k))).collect();
+        ArchiveWriter::new(dest, &pubs)
+    } else {
+        ArchiveWriter::from_config(dest, cfg.writer_config())
+    }
+}
+
 /// Run an op list through the real `ArchiveWriter` over any `Write` destination.
 pub fn build_into<W: Write>(dest: W, cfg: &Cfg, ops: &[Op], mut on_flush: impl FnMut()) -> (Vec<String>, bool) {
-    let mut w = match ArchiveWriter::from_config(dest, cfg.writer_config()) {
+    let mut w = match open_writer(dest, cfg) {
         Ok(w) => w,
         Err(e) => return (vec![format!("open:{}", err_class(&e))], false),
     };
@@ -258,7 +269,7 @@ pub fn build_streamed<R: std::io::Read>(cfg: &Cfg, ops: &[Op], mut mk_src: impl 
     let data = sink.data.clone();
     let mut results = Vec::with_capacity(ops.len());
     let mut finalized = false;
-    let mut w = match ArchiveWriter::from_config(sink, cfg.writer_config()) {
+    let mut w = match open_writer(sink, cfg) {
         Ok(w) => w,
         Err(e) => return Built { bytes: vec![], results: vec![format!("open:{}", err_class(&e))], flush_len: vec![], finalized: false },
     };
@@ -371,7 +382,8 @@ pub fn used_cursor(bytes: &[u8]) -> Cursor<&[u8]> {
 
 /// same over any `Read + Seek` source (C13: throttled sources)
 pub fn read_all_from<R: Read + std::io::Seek>(src: R, cfg: &Cfg) -> Result<BTreeMap<String, FileRead>, String> {
-    let mut r = ArchiveReader::from_config(src, cfg.reader_config()).map_err(|e| err_class(&e))?;
+    // archives without encryption need no configuration: `ArchiveReader::new(src)` for one case in three
+    let mut r = if cfg.layers & L_ENC == 0 && cfg.level % 3 == 2 { ArchiveReader::new(src) } else { ArchiveReader::from_config(src, cfg.reader_config()) }.map_err(|e| err_class(&e))?;
     let names: Vec<String> = r.list_files().map_err(|e| err_class(&e))?.cloned().collect();
     let mut out = BTreeMap::new();
     for n in names {
@@ -600,7 +612,8 @@ fn repair_inner(bytes: &[u8], cfg: &Cfg, authenticated: bool) -> Result<Repaired
 /// repair from any `Read` source (C13: throttled sources)
 pub fn repair_from<R: Read>(src: R, cfg: &Cfg, authenticated: bool) -> Result<Repaired, String> {
     let rc = cfg.reader_config_mode(Some(authenticated));
-    let mut fs = ArchiveFailSafeReader::from_config(src, rc).map_err(|e| err_class(&e))?;
+    // (`ArchiveFailSafeReader::new(src)` when there is nothing to configure: no encryption, default mode)
+    let mut fs = if cfg.layers & L_ENC == 0 && authenticated && cfg.level % 3 == 1 { ArchiveFailSafeReader::new(src) } else { ArchiveFailSafeReader::from_config(src, rc) }.map_err(|e| err_class(&e))?;
     let sink = Sink::default();
     let data = sink.data.clone();
     let mut out_w = ArchiveWriter::from_config(sink, ArchiveWriterConfig::new()).map_err(|e| err_class(&e))?;
